@@ -143,7 +143,8 @@ CHECKS = {
         technique="explicit-state BFS over API call histories with store-fault indexes on the real MetaCDC, invariant + reference state machine in every state",
         text="Every history of create/pause/resume/delete/get/list/restart over two tasks (one or two targets, auto-start on/off), optionally with the metadata store failing at the n-th call of an operation, is replayed on a fresh real MetaCDC; in every reached state the API, the persisted record, the in-memory table and the per-state gauges must agree, only legal transitions may succeed, and reference count, quit functions, replication entity, catalog subscriptions, source stream registrations and store records must match the set of running / existing tasks.",
         note="Bounded: depth 4 (5 thorough), fault at store call 1..3 (1..6), two tasks. Light replication entity (recording channel manager); the busy-background-work clause was exercised by the stall watchdog of the pipeline harness (barrier spin, fixed).",
-        parts=[part("lifecycle", "server", ".", "TestVerifC11Lifecycle", shards=(16, 16), budget=(150, 1200))],
+        parts=[part("lifecycle", "server", ".", "TestVerifC11Lifecycle", shards=(16, 16), budget=(150, 1200)),
+               part("fullstack", "server", ".", "TestVerifC11Fullstack", shards=(16, 16), budget=(150, 1200), gomaxprocs=1)],
     ),
     "C12": dict(
         level="model_checking", engine="seq",
